@@ -148,6 +148,16 @@ type impl struct {
 	prev     node.Root // root before the last commit
 	havePrev bool
 	opts     []mkvs.Option
+	// io: the tree holds an IO root (node.RootTypeIO, policy NoChildRoots): all commits stay in
+	// one version and nothing is finalized in between.
+	io bool
+}
+
+func (im *impl) rootType() node.RootType {
+	if im.io {
+		return node.RootTypeIO
+	}
+	return node.RootTypeState
 }
 
 func (im *impl) openDB() {
@@ -273,7 +283,12 @@ func (im *impl) commit() (writelog.WriteLog, hash.Hash, error) {
 	if err != nil {
 		return nil, h, err
 	}
-	root := node.Root{Namespace: testNs, Version: im.version, Type: node.RootTypeState, Hash: h}
+	root := node.Root{Namespace: testNs, Version: im.version, Type: im.rootType(), Hash: h}
+	if im.io {
+		im.prev, im.havePrev = im.last, true
+		im.last = root
+		return wl, h, nil
+	}
 	if im.ndb != nil {
 		if err = im.ndb.Finalize([]node.Root{root}); err != nil {
 			return nil, h, fmt.Errorf("finalize: %w", err)
